@@ -120,3 +120,73 @@ func c01fastgoValueElems(c *core.Check) {
 }
 
 var _ = rules.ExprString
+
+// c01astSurgery: which includes a generated file imports is decided by the Used flags the semantic pass leaves on the
+// AST's includes. A backend function that takes definitions out of the AST after that pass (the removal of streaming
+// functions when thrift_streaming is off) can take away the last reference into an include; the flag then still says
+// "used", the import is emitted, and the file does not compile (imported and not used). Rule: a function of the Go backend
+// that assigns the Functions list of a *parser.Service (or the Services/Structs lists of the AST) also has the usage
+// recomputed — it calls semantic.ResolveSymbols after clearing the flags.
+func c01astSurgery(c *core.Check) {
+	pk := c.Prog.Pkg("generator/golang")
+	if pk == nil {
+		c.Unknown("anchor", "generator/golang", "", "package missing")
+		return
+	}
+	info := pk.TypesInfo
+	n := 0
+	c.Prog.AllFuncDecls("generator/golang", func(file *ast.File, fd *ast.FuncDecl) {
+		if fd.Body == nil || strings.HasSuffix(c.Prog.Fset.File(fd.Pos()).Name(), "_test.go") {
+			return
+		}
+		var surgery ast.Node
+		ast.Inspect(fd.Body, func(m ast.Node) bool {
+			as, ok := m.(*ast.AssignStmt)
+			if !ok {
+				return true
+			}
+			for _, l := range as.Lhs {
+				sel, ok := l.(*ast.SelectorExpr)
+				if !ok {
+					continue
+				}
+				tv, ok := info.Types[sel.X]
+				if !ok {
+					continue
+				}
+				t := strings.TrimPrefix(tv.Type.String(), "*")
+				if strings.HasSuffix(t, "parser.Service") && sel.Sel.Name == "Functions" ||
+					strings.HasSuffix(t, "parser.Thrift") && (sel.Sel.Name == "Services" || sel.Sel.Name == "Structs" || sel.Sel.Name == "Typedefs") {
+					surgery = as
+				}
+			}
+			return true
+		})
+		if surgery == nil {
+			return
+		}
+		n++
+		resolves, clears := false, false
+		ast.Inspect(fd.Body, func(m ast.Node) bool {
+			switch x := m.(type) {
+			case *ast.CallExpr:
+				if fn := rules.Callee(info, x); fn != nil && fn.Name() == "ResolveSymbols" {
+					resolves = true
+				}
+			case *ast.AssignStmt:
+				for _, l := range x.Lhs {
+					if sel, ok := l.(*ast.SelectorExpr); ok && sel.Sel.Name == "Used" {
+						clears = true
+					}
+				}
+			}
+			return true
+		})
+		c.Decide(resolves && clears, "ast-surgery-recomputes-include-usage", core.FuncKey("generator/golang", fd)+"/"+rules.ExprString(surgery.(*ast.AssignStmt).Lhs[0]), c.Prog.Rel(surgery.Pos()),
+			"after the definitions are removed the Used flags are cleared and the symbols resolved again",
+			"definitions are taken out of the AST after the semantic pass, but the Used flags of the includes are not recomputed: an include that was only referenced by a removed definition (`base.Req f(1: base.Req r) (streaming.mode=\"bidirectional\")` with default options) is still imported — imported and not used, the generated package does not compile")
+	})
+	if n == 0 {
+		c.OKTrivial("ast-surgery-recomputes-include-usage", "generator/golang/ast-surgery", "generator/golang", "the Go backend never removes definitions from the AST")
+	}
+}
